@@ -138,6 +138,36 @@ fn check_case(case: &Value, idx: usize) -> Option<Value> {
             }
         }
     }
+    // 3c. the index completes the text where the input has "1" - possibly the name of a variable that is set for one
+    // index of the window and unset for another: a window of three, four rolls, every archive where the pattern
+    // means it at that index (substitute, then expand - per index)
+    if !input.contains("{}") && case.get("expect0").is_some() {
+        let s = Scratch::new("env");
+        let pattern = format!("{}/out/c-{}.log", s.path().display(), input.replace('1', "{}"));
+        let active = s.path().join("active.log");
+        let r = catch(|| -> anyhow::Result<()> {
+            let roller = FixedWindowRoller::builder().build(&pattern, 3)?;
+            for k in 1..=4 {
+                std::fs::write(&active, format!("data{}", k))?;
+                roller.roll(&active)?;
+            }
+            Ok(())
+        });
+        let sub = |v: &Value| v.as_str().unwrap().replace('~', "\u{e9}").replace('^', "\u{fc}");
+        match r {
+            Err(pn) => return Some(json!({"site": "FixedWindowRoller (index inside the text)", "what": "panic", "error": pn})),
+            Ok(Err(e)) => return Some(json!({"site": "FixedWindowRoller (index inside the text)", "what": "roll failed", "error": e.to_string()})),
+            Ok(Ok(())) => {
+                let got: Vec<(String, String)> = snapshot(s.path(), false, false).into_iter().map(|(k, v)| (k, String::from_utf8_lossy(&v).to_string())).collect();
+                let mut want = vec![(format!("out/c-{}.log", sub(&case["expect0"])), "data4".to_string()), (format!("out/c-{}.log", expect), "data3".to_string()),
+                                    (format!("out/c-{}.log", sub(&case["expect2"])), "data2".to_string())];
+                want.sort();
+                if got != want {
+                    return Some(json!({"site": "FixedWindowRoller (index inside the text)", "what": "archives after four rolls", "pattern": pattern, "expected": want, "actual": got}));
+                }
+            }
+        }
+    }
     None
 }
 
